@@ -878,6 +878,10 @@ class DatasetBuilder:
 
         # no nulls: use as-is
         if np.all(valid) and np.all(v_valid):
+            # reorder the vectors to the order of the entity table
+            order = np.argsort(rows.to_numpy())
+            if np.any(np.diff(order) < 0):
+                values = values.take(order)
             self.schema.entities[cls].attributes[name] = ColumnSpec(
                 layout=AttrLayout.VECTOR, vector_size=values.type.list_size
             )
